@@ -176,6 +176,23 @@ def generate_params():
     return True, ""
 
 
+LOCKS_REPORT = ""
+
+
+def generate_locks():
+    """Regenerate lean/FV/Generated/Locks.lean (lock-discipline facts of lib/go) from /repo's working tree."""
+    os.makedirs(BUILD, exist_ok=True)
+    src = os.path.join(VERIF, "harness", "locks")
+    binp = os.path.join(BUILD, "locks")
+    rc, out, err = run(["go", "build", "-o", binp + ".%d" % os.getpid(), "."], cwd=src, env=GOENV, timeout=600)
+    if rc != 0: return False, "lock extractor does not build: " + (out + err)[-800:]
+    os.replace(binp + ".%d" % os.getpid(), binp)
+    rc, out, err = run([binp, REPO, os.path.join(LEAN, "FV", "Generated", "Locks.lean")], timeout=120)
+    if rc != 0: return False, "census:Locks " + (out + err).strip()[-800:]
+    global LOCKS_REPORT
+    LOCKS_REPORT = out.strip()   # NESTED / LEAK lines (informative; the Lean theorem decides)
+    return True, ""
+
 class Results:
     """What the suites produced. Correspondence cases are compared with the model AS THEY ARRIVE (one
     harness job at a time) and only counts, a bounded sample and the first disagreements are kept, so that
